@@ -34,7 +34,7 @@ PROGRAM_THEOREMS = {
     "C01": ["accepted_getter"], "C02": ["accepted_setter", "accepted_history_readback"], "C03": ["accepted_getter", "accepted_setter", "accepted_oob"],
     "C04": ["accepted_getter", "accepted_setter", "accepted_wide", "accepted_history_readback"], "C05": ["accepted_getter", "accepted_setter", "accepted_history_readback"],
     "C08": ["accepted_getter", "accepted_history_readback"], "C11": ["accepted_setter", "accepted_history"],
-    "C12": ["accepted_history", "accepted_history_readback", "LegalStep.ok"], "C13": ["accepted_builder", "chainCalls_ok"],
+    "C12": ["accepted_history", "accepted_history_readback", "accepted_history_order_independent", "LegalStep.ok"], "C13": ["accepted_builder", "chainCalls_ok"],
     "C14": ["accepted_builder", "pieces_disjoint_of_writable", "ranges_disjoint_of_pieces"], "C06": ["expand_inv", "accepted_default", "accepted_no_default"], "C16": ["accepted_history_profile_independent", "accepted_oob", "accepted_wide"],
 }
 
